@@ -216,7 +216,10 @@ REWRITE = {
              "ORDERED READERS (c14_ordered_concurrent_readahead, c14_batch_machine_is_the_ordered_reader, c14_ordered_async_readahead): the unshuffled concurrent reader as a machine (batches of T paths, every file of a batch opened at once, the next batch only after the previous one was handed over) "
              "over any stream of paths satisfies (opened-T)*m <= yielded at every moment and delivers on finite lists exactly what the composition regenerated from as_numpy_iterator_concurrent delivers; the unshuffled async reader is the plain chain: (opened-1)*m <= yielded. "
              "The machines' exact open counts on the real shard sizes are an upper envelope for the spy's counts at every yield. "
-             "PARTIAL: the composition bounds of the shuffled concurrent and async interfaces (e.g. 3T+2+k shard files for the shuffled concurrent reader) are derived by hand and checked by runs")],
+             "SHUFFLED READERS (c14_round_robin_readahead, c14_shuffled_concurrent_readahead, c14_shuffled_async_readahead): round robin over lazily opened iterables of >= m elements satisfies (opened-b)*m <= yielded (every closed iterator was used up); "
+             "composed with the lazy pool in ANY reachable state (every thread schedule): (taken-(2T+2)-b)*m <= yielded, under the stated coupling that round robin has pulled exactly what the pool has yielded (a generator advances only inside its consumer's next()); "
+             "for the async reader round robin runs directly over the lazily opened shards of any path stream. c14_composition_nonvacuous exhibits a coupled state where the bound is tight. "
+             "PARTIAL: the generator-coupling hypothesis itself, and that the spy's counts stay below these bounds, are checked by runs")],
     "C19": [("PARTIAL: whole interfaces are checked on prefixes",
              "COMPOSED (c19_sync_reader_periodic): the lazy chain of shards over itertools.cycle of the selected paths - the unshuffled repeating synchronous reader - hands over, for every k, example (k mod N) of a single pass. "
              "RUST INTERFACE (c19_rust_streams_isolated, c19_rust_stream_periodic, c19_rust_streams_live): any number of RustGenerators sharing the registry of live Rust iterators (Model/Registry.v: control flow regenerated from RustGenerator, "
